@@ -116,17 +116,58 @@ example : (Ext.resolve [("o.yml", .services [("b", .ext (.map (.str "a") (.str "
                         ("m.yml", .services [("a", .ext (.map (.str "b") (.str "o.yml")))])]
             "main" 9 [("a", .ext (.map (.str "b") (.str "o.yml")))] "a" []).1 = .err "circular" := by decide
 
-/-- `ok_xor_err` for the extends stage: with enough fuel the outcome is success or an error class, unless the
-unchecked assertion of `absExtendsPath` is reached (that case is `Neg.extends_never_panics_false`) -/
-theorem extends_ok_xor_err_partial (fs : Ext.FS) (main : String) (svcs : Ext.Services) (name : String) (fuel : Nat)
-    (hf : (Ext.refUniverse fs main svcs).length < fuel)
-    (hnp : ∀ s, (Ext.resolve fs main fuel svcs name []).1 ≠ .panic s) :
+/-- the part of `applyServiceExtends` before `tracker.Add` has no panic branch (since `absExtendsPath` reports a
+non-string `extends.file` as an error) -/
+theorem locate_never_panics (fs : Ext.FS) (main : String) (svcs : Ext.Services) (e : Ext.ExtVal) (s : String) :
+    Ext.locate fs main svcs e ≠ .error (.panic s) := by
+  unfold Ext.locate
+  repeat' split
+  all_goals (intro h; cases h)
+
+/-- `extends_never_panics` (full strength since the repair of `panic@paths.(*relativePathsResolver).absExtendsPath`;
+it was `Neg.extends_never_panics_false`): the extends recursion has no panic outcome, for any file system, fuel,
+services and tracker -/
+theorem extends_never_panics (fs : Ext.FS) (main : String) :
+    ∀ (fuel : Nat) (svcs : Ext.Services) (name : String) (tr : Tracker) (s : String),
+      (Ext.resolve fs main fuel svcs name tr).1 ≠ .panic s
+  | 0, _, _, _, _ => by unfold Ext.resolve; intro h; cases h
+  | fuel + 1, svcs, name, tr, s => by
+    unfold Ext.resolve
+    split
+    · intro h; cases h
+    · intro h; cases h
+    · intro h; cases h
+    · intro h; cases h
+    · rename_i e _
+      split
+      · rename_i r hl
+        intro h
+        have : r = .panic s := h
+        subst this
+        exact locate_never_panics fs main svcs e s hl
+      · rename_i ref file target hl
+        split
+        · intro h; cases h
+        · rename_i tr' _
+          have ih := extends_never_panics fs main fuel (target.getD svcs) ref tr' s
+          generalize Ext.resolve fs main fuel (target.getD svcs) ref tr' = res at ih
+          obtain ⟨r1, b, s'⟩ := res
+          simp only at ih
+          cases r1 with
+          | ok => cases b <;> (intro h; cases h)
+          | err c => intro h; cases h
+          | panic t => intro h; simp only at h; cases h; exact ih rfl
+          | outOfFuel => intro h; cases h
+
+/-- `ok_xor_err` for the extends stage (full strength): with enough fuel the outcome is success or an error class -/
+theorem extends_ok_xor_err (fs : Ext.FS) (main : String) (svcs : Ext.Services) (name : String) (fuel : Nat)
+    (hf : (Ext.refUniverse fs main svcs).length < fuel) :
     (Ext.resolve fs main fuel svcs name []).1 = .ok ∨ ∃ c, (Ext.resolve fs main fuel svcs name []).1 = .err c := by
   have h := extends_terminates fs main svcs name fuel hf
   cases hr : (Ext.resolve fs main fuel svcs name []).1 with
   | ok => exact Or.inl rfl
   | err c => exact Or.inr ⟨c, rfl⟩
-  | panic s => exact absurd hr (hnp s)
+  | panic s => exact absurd hr (extends_never_panics fs main fuel svcs name [] s)
   | outOfFuel => exact absurd hr h
 
 /-! ## include -/
